@@ -29,7 +29,9 @@ RootSets == <<
     <<Root("a/b c", <<"a", "b c">>, <<"a", "b c">>)>>,                    \* 6 two components
     <<Root(".h", <<".h">>, <<".h">>)>>,                                   \* 7 CODE-DERIVED: hidden root is pruned
     <<Root("a/", <<"a">>, <<"a">>)>>,                                     \* 8 CODE-DERIVED: trailing separator
-    <<Root("./", <<>>, <<>>)>>                                            \* 9 CODE-DERIVED: "./" is "."
+    <<Root("./", <<>>, <<>>)>>,                                           \* 9 CODE-DERIVED: "./" is "."
+    <<RootVia("a/..", <<>>, <<"a", "..">>, <<"a">>)>>,                    \* 10 the working directory through a/..: ".." is not hidden
+    <<RootVia("a/skip/..", <<"a">>, <<"a", "skip", "..">>, <<"a", "skip">>)>>   \* 11 a nested directory through its child
 >>
 RootsOK(rs) == \A i \in DOMAIN rs : RootOK(rs[i])
 
@@ -74,7 +76,7 @@ O4  == {o \in Opts : o.file /\ o.dir}
 O2  == {o \in O4 : o.follow = o.hidden}
 BigCombos == (O12 \X {1, 2} \X {1}) \cup (O4 \X (3..Len(SkipLists)) \X {1})
              \cup (O4 \X {1, 3} \X {2}) \cup (O4 \X {1, 2} \X {4}) \cup (O4 \X {1, 5} \X {7})
-             \cup (O2 \X {1, 3} \X {6}) \cup (O2 \X {1} \X {3, 5, 8, 9})
+             \cup (O2 \X {1, 3} \X {6}) \cup (O2 \X {1} \X {3, 5, 8, 9}) \cup (O4 \X {1, 3} \X {10, 11})
 Combos == { c \in IF Cardinality(tree) <= FullUpTo THEN Opts \X (1..Len(SkipLists)) \X (1..Len(RootSets))
                                                    ELSE BigCombos :
               RootsOK(RootSets[c[3]]) /\ SkipRelevant(c[2]) }
